@@ -6,13 +6,17 @@
     [AdmitJob j] (job-level gate on the sum of the tasks, then per task the
     node-level gate in the running state followed by the allocate handler; a
     refusal leaves the state unchanged) or [Release t] (deallocate handler).
+    [allocate_job mode] is AllocateJob with its isPipelineOnly argument (false:
+    the allocate action; true: the scenario solvers of preempt / reclaim /
+    consolidation); [admit_job] is the same function without the argument.
     Events add Statement.Commit on top: [CommitOk], [BindFail t].
     [load_init] is the session-open pass (updateQueuesCurrentResourceUsage)
     that builds the first state of a cycle from the snapshot's pods.
     [charged np qs led q r] is the ground truth: the sum over the ledger
     entries in the subtree of [q] (non-preemptible ones only when [np]). *)
 From Coq Require Import List ZArith QArith.
-From KaiV Require Import Model.Status Model.Capacity Model.CapacitySpec Proofs.Capacity Proofs.CapacitySnapshot.
+From KaiV Require Import Model.Status Model.Capacity Model.CapacitySpec Proofs.Capacity Proofs.CapacitySnapshot
+  Proofs.CapacityModes.
 Import ListNotations.
 Open Scope Q_scope.
 
@@ -273,3 +277,110 @@ Theorem C08_snapshot_nonvacuous :
     = Done [(1%positive, {| r_cpu := 0; r_mem := 0; r_gpu := 1 |}); (2%positive, {| r_cpu := 0; r_mem := 0; r_gpu := 1 |})].
 Proof. exact snapshot_nonvacuous. Qed.
 Print Assumptions C08_snapshot_nonvacuous.
+
+(** * The two modes of AllocateJob, and the job-level gate
+
+    common.AllocateJob runs the job-level gate (the sum of the job's tasks
+    against every queue of the chain) and then the per-task node-level gates in
+    BOTH modes: as a real allocation (allocate action) and pipeline-only (the
+    scenario solvers of preempt, reclaim and consolidation, which decide on
+    evictions). The mode decides how a placed task is recorded, not which
+    gates run. *)
+Theorem C08_same_gates_in_both_modes :
+  forall (pipeline_only : bool) (fuel : nat) (qs : list queue) (j : job),
+    allocate_job pipeline_only fuel qs j = admit_job fuel qs j.
+Proof. exact allocate_job_mode_independent. Qed.
+Print Assumptions C08_same_gates_in_both_modes.
+
+(** a pipeline-only placement is a nomination (Statement.Pipeline ->
+    TaskPipelined) whatever the node has idle; a real allocation binds exactly
+    the tasks that fit idle resources *)
+Theorem C08_pipeline_only_never_binds :
+  (forall fits_idle, op_of true fits_idle = OpPipeline) /\
+  (forall fits_idle, op_of false fits_idle = OpAllocate <-> fits_idle = true).
+Proof. exact pipeline_only_never_binds. Qed.
+Print Assumptions C08_pipeline_only_never_binds.
+
+(** (a) Multi-device jobs. For every job none of whose tasks carries a
+    gpu-memory request -- N whole GPUs per pod, a fraction on any number of
+    devices, MIG, DRA, CPU-only, any mix; non-negative fields -- an
+    acceptance by AllocateJob in EITHER mode, in any consistent state (e.g.
+    the one a solver's scenario reached by evicting victims), leaves every
+    queue whose charged amount it raises within its limit, and with
+    [np_only] its non-preemptible amount within its deserved quota: the job's
+    queue and every ancestor. *)
+Theorem C08_multi_device_job_within_caps :
+  forall (np_only pipeline_only : bool) (fuel : nat) (s : state) (j : job) (qs : list queue) (es : list entry),
+    wf_forest (s_queues s) = true -> counters_exact s -> ledger_nonneg s = true ->
+    wf_job j = true ->
+    (forall tn, In tn (j_tasks j) -> no_gpu_memory tn) ->
+    allocate_job pipeline_only fuel (s_queues s) j = Done (Accepted qs es) ->
+    raise_within np_only s {| s_queues := qs; s_ledger := es ++ s_ledger s |}.
+Proof. exact multi_device_job_within_caps. Qed.
+Print Assumptions C08_multi_device_job_within_caps.
+
+(** (b) It is the job-level gate that does this: the node-level gate checks
+    ONE device per task ([node_task_request] = GetRequiredInitQuota), the
+    handler charges all of them. [admit_job_node_gate_only] (AllocateJob
+    without the job-level gate) and
+    [allocate_job_gate_skipped_when_pipeline_only] (the `if !isPipelineOnly`
+    guard around the whole job-level check instead of around the fit-error
+    report) are NOT the code; in pipeline-only mode they admit a well-formed
+    job of the class of (a) past the limit, from a consistent state. *)
+Theorem C08_node_level_gate_alone_insufficient :
+  exists (s : state) (j : job) (qs : list queue) (es : list entry),
+    wf_forest (s_queues s) = true /\ counters_exact s /\ ledger_nonneg s = true /\ wf_job j = true /\
+    (forall tn, In tn (j_tasks j) -> no_gpu_memory tn) /\
+    admit_job_node_gate_only 3 (s_queues s) j = Done (Accepted qs es) /\
+    allocate_job_gate_skipped_when_pipeline_only true 3 (s_queues s) j = Done (Accepted qs es) /\
+    ~ raise_within false s {| s_queues := qs; s_ledger := es ++ s_ledger s |}.
+Proof. exact node_gate_alone_insufficient. Qed.
+Print Assumptions C08_node_level_gate_alone_insufficient.
+
+(** The witness spelled out (the world of seeded/C08-3): leaf 2 under
+    department 1, GPU limit 4 at the leaf; the snapshot holds a non-preemptible
+    2-GPU pod and a preemptible 2-GPU pod; a solver scenario evicts the latter:
+    the leaf holds 2 GPUs. The pending job is ONE pod asking 4 whole GPUs: the
+    job-level gate sums 4, the node-level gate checks 1, the handler charges 4.
+    AllocateJob refuses it in both modes (OverLimit at the leaf); the
+    node-level gates alone accept it and the leaf ends at 6 > 4. *)
+Theorem C08_multi_device_nonvacuous :
+  wf_forest (s_queues md_mid) = true /\ counters_exact md_mid /\ ledger_nonneg md_mid = true /\
+  wf_job (md_job4 true) = true /\ covered (md_job4 true) = true /\
+  (forall tn, In tn (j_tasks (md_job4 true)) -> no_gpu_memory tn) /\
+  md_after_eviction (md_queues (-1) 4 4) = Done md_mid /\
+  charged false (s_queues md_mid) (s_ledger md_mid) 2 GPU == 2 /\
+  (forall po, allocate_job po 3 (s_queues md_mid) (md_job4 true) = Done (Refused (OverLimit 2))) /\
+  rget (job_request (map fst (j_tasks (md_job4 true)))) GPU == 4 /\
+  rget (node_task_request 100 (md_whole 3 4)) GPU == 1 /\
+  rget (charge 100 (md_whole 3 4)) GPU == 4 /\
+  admit_job_node_gate_only 3 (s_queues md_mid) (md_job4 true) = Done (Accepted (fst md_bad_out) (snd md_bad_out)) /\
+  charged false (s_queues md_bad) (s_ledger md_bad) 2 GPU == 6 /\
+  allocate_job_gate_skipped_when_pipeline_only true 3 (s_queues md_mid) (md_job4 true)
+    = admit_job_node_gate_only 3 (s_queues md_mid) (md_job4 true) /\
+  allocate_job_gate_skipped_when_pipeline_only false 3 (s_queues md_mid) (md_job4 true) = Done (Refused (OverLimit 2)).
+Proof. exact node_gate_only_witness. Qed.
+Print Assumptions C08_multi_device_nonvacuous.
+
+(** Where the two differ. After the eviction the leaf and the department hold
+    2 GPUs (2 of them non-preemptible). [md_verdicts qs j] = (AllocateJob in
+    pipeline-only mode accepts, the node-level gates alone accept). With the
+    cap c at 2 both refuse the 4-GPU pod (2 + 1 > 2); with c = 3, 4, 5 --
+    between "one more device" and "all four" -- AllocateJob refuses and the
+    node-level gates alone accept; from c = 6 on both accept. The same with
+    the limit on the department, with the deserved quota (non-preemptible
+    job), and for a pod asking half a GPU on each of 3 devices (1.5 GPUs: caps
+    2.5, 3, 3.25). A gang of four 1-GPU pods is treated alike by both. *)
+Theorem C08_multi_device_window :
+  map (fun c => md_verdicts (md_queues (-1) c (-1)) (md_job4 true)) [2; 3; 4; 5; 6]
+    = [Some (false, false); Some (false, true); Some (false, true); Some (false, true); Some (true, true)] /\
+  map (fun c => md_verdicts (md_queues c (-1) (-1)) (md_job4 true)) [2; 3; 4; 5; 6]
+    = [Some (false, false); Some (false, true); Some (false, true); Some (false, true); Some (true, true)] /\
+  map (fun c => md_verdicts (md_queues (-1) (-1) c) (md_job4 false)) [2; 3; 4; 5; 6]
+    = [Some (false, false); Some (false, true); Some (false, true); Some (false, true); Some (true, true)] /\
+  map (fun c => md_verdicts (md_queues (-1) c (-1)) md_jobf) [2; 5 # 2; 3; 13 # 4; 7 # 2]
+    = [Some (false, false); Some (false, true); Some (false, true); Some (false, true); Some (true, true)] /\
+  map (fun c => md_verdicts (md_queues (-1) c (-1)) md_gang) [2; 3; 4; 5; 6]
+    = [Some (false, false); Some (false, false); Some (false, false); Some (false, false); Some (true, true)].
+Proof. exact multi_device_window. Qed.
+Print Assumptions C08_multi_device_window.
